@@ -1,5 +1,5 @@
 """C13 — in-states are isolated copies.  D: StateTree.tla (object-identity model) exhaustively to bounded depth;
-R: simulation behaviours over four tree shapes replayed into the real TreeStateHandler;  T: run-level clauses."""
+R: simulation behaviours over six tree shapes (incl. two-level trees with a single point mass per composite object) replayed into the real TreeStateHandler;  T: run-level clauses."""
 import json
 import os
 from concurrent.futures import ThreadPoolExecutor
@@ -8,7 +8,7 @@ from harness import tlc
 from harness.build import Scratch, run_py
 from harness.common import extract_json
 
-SHAPES = {"12": (1, 2), "20": (2, 0), "23": (2, 3), "13": (1, 3)}
+SHAPES = {"12": (1, 2), "20": (2, 0), "23": (2, 3), "13": (1, 3), "21": (2, 1), "31": (3, 1)}
 
 
 def run(chk):
